@@ -358,6 +358,27 @@ def infix_text(e):
     return "(" + infix_text(e["l"]) + ") " + op + " (" + infix_text(e["r"]) + ")"
 
 
+# documented precedence (bobpaths manpage, decreasing): ! < <= > >= == != && ||
+PREC = {"!": 9, "<": 8, "<=": 7, ">": 6, ">=": 5, "==": 4, "!=": 3, "&&": 2, "||": 1}
+
+
+def infix_min_text(e, parent=0, right=False):
+    """the same tree written with only the parentheses the documented precedence and
+    left associativity require"""
+    if "lit" in e:
+        return e["q"] + e["lit"] + e["q"]
+    if "call" in e:
+        return e["call"] + "(" + ", ".join(infix_min_text(a) for a in e["args"]) + ")"
+    if "not" in e:
+        return "!" + infix_min_text(e["not"], PREC["!"])
+    op = e.get("str") or e.get("bool")
+    me = PREC[op]
+    txt = infix_min_text(e["l"], me) + " " + op + " " + infix_min_text(e["r"], me, True)
+    if me < parent or (me == parent and right):
+        return "(" + txt + ")"
+    return txt
+
+
 FUNFORM = {"==": "eq", "!=": "ne", "&&": "and", "||": "or"}
 
 
@@ -505,6 +526,14 @@ def oracle(ctx):
             ctx.violation("internal exception from IfExpression(%r): %s" % (it, a[1]),
                           {"kind": "infix", "expr": e, "env": env, "sandbox": sb}, "ifexpr-internal-exception")
             continue
+        mt = infix_min_text(e)
+        if mt != it:
+            m = impl_ifexpr(mt, env, sb, TOOLS)
+            ctx.case((mt, "infix-min"))
+            if m != a:
+                ctx.violation("infix %r (documented precedence, = %r) evaluates to %r but the explicit grouping to %r"
+                              % (mt, it, m, a), {"kind": "infix", "expr": e, "env": env, "sandbox": sb}, "infix-precedence")
+                continue
         ft = funcall_text(e)
         if ft is None:
             continue
@@ -571,7 +600,7 @@ def correspond(ctx):
         e = gen_ifexpr(r, r.randrange(1, 4))
         env = r.choice(ENVS)
         sb = r.random() < 0.5
-        it = infix_text(e)
+        it = infix_text(e) if i % 2 else infix_min_text(e)
         impl2.append(impl_ifexpr(it, env, sb, TOOLS))
         reqs2.append({"op": "evalif", "expr": lean_expr(e), "env": env, "sandbox": sb, "tools": TOOLS, "nounset": False})
         cases2.append({"kind": "infix", "text": it, "env": env, "sandbox": sb})
@@ -642,6 +671,8 @@ def replay(ctx, case):
         a = impl_ifexpr(infix_text(e), case["env"], case["sandbox"], TOOLS)
         if a[0] == "internal":
             ctx.violation("internal exception", case)
+        if impl_ifexpr(infix_min_text(e), case["env"], case["sandbox"], TOOLS) != a:
+            ctx.violation("documented precedence not followed", case)
         ft = funcall_text(e)
         if ft is not None:
             b = impl_evalstr(ft, case["env"], case["sandbox"], TOOLS)
